@@ -93,3 +93,11 @@ Theorem C16_dtd_attr_defaults : forall ra da qn d m present,
   afield_roundtrip (afield_of_attr qn (build_attribute m da) (model_enum da)) present = Some (effective d present).
 Proof. exact dtd_attr_defaults. Qed.
 Print Assumptions C16_dtd_attr_defaults.
+
+Theorem C16_dtd_choice_of_sequence_refuted :
+  dtd_guard w_or_seq = true /\ guard_orseq w_or_seq = false /\
+  option_map (fun dc => map (fun a => (a_max a, a_choice a)) (build_content dc None [])) (parse_content w_or_seq)
+  = Some [(Some 1%N, Some []); (Some 1%N, Some []); (Some 1%N, Some []); (Some 1%N, Some [])] /\
+  option_map (maxcountP (fun _ => true)) (cm_of_raw w_or_seq) = Some (Some 3%nat).
+Proof. exact dtd_choice_of_sequence_one_choice_id. Qed.
+Print Assumptions C16_dtd_choice_of_sequence_refuted.
